@@ -23,6 +23,7 @@ def names(seq, n):
     if seq == 'mixed': return [('m%d_' % i) + 'x' * ((i * 37) % 200) for i in range(n)]
 
 S_DIR, S_REG, S_LNK, S_FIFO = 0o040000, 0o100000, 0o120000, 0o010000
+ROOTMODEL = {'/n005': (S_REG, 1)}
 
 def listing(data):
     """independent reading: {name: (type, nlink, ino)} of /T, nlink of /T itself"""
@@ -35,7 +36,14 @@ def listing(data):
         I = im.inode(ino)
         if name.decode('latin1') in out: raise Malformed('duplicate name %r' % name)
         out[name.decode('latin1')] = (I.fmt, I.i_links_count, ino)
-    return out, T.i_links_count, im
+    # the root directory is observed too (model keys with a leading slash): operations spelled with an absolute path must land there and nowhere else
+    for name, ino, ft, l in im.read_dir(im.inode(2)):
+        if name in (b'.', b'..', b'T', b'lost+found'): continue
+        I = im.inode(ino)
+        k = '/' + name.decode('latin1')
+        if k in out: raise Malformed('duplicate name %r in the root directory' % name)
+        out[k] = (I.fmt, I.i_links_count, ino)
+    return out, (T.i_links_count, im.inode(2).i_links_count), im
 
 def check_state(data, model, tnlink, label, full=True):
     bad = []
@@ -51,7 +59,10 @@ def check_state(data, model, tnlink, label, full=True):
         g = got[n]
         if g[0] != typ or g[1] != nl:
             bad.append('%s: %s resolves to type %o with %d links, model says type %o with %d links' % (label, n[:24], g[0], g[1], typ, nl)); break
+    tn, rootnl = tn
     if tn != tnlink and not (tnlink >= 65000 and tn == 1): bad.append('%s: the directory itself has %d links, model says %d' % (label, tn, tnlink))
+    wantroot = 4 + sum(1 for k, v in model.items() if k.startswith('/') and v[0] == S_DIR)
+    if rootnl != wantroot: bad.append('%s: the root directory has %d links, model says %d' % (label, rootnl, wantroot))
     if full and not bad:
         v = xcheck(im)
         if v: bad.append('%s: independent checker: %s' % (label, [list(x) for x in v[:3]]))
@@ -80,8 +91,9 @@ def sweep_job(j):
     rc, out = run([MKE2FS, '-q', '-F', '-N', str(N + 64), '-U', '6b33f586-a183-4383-921d-30ab132db9b9', '-E', 'hash_seed=a0c4b9f1-7e1d-4c6b-8f4e-9d2f1b3c5a70'] + CONFIGS[cfg] + [p, '6M' if not bs4 else '16M'], timeout=60)
     if rc: return (cfg, seq, ['mke2fs failed: %s' % out[-200:]], 0, [])
     run([DEBUGFS, '-w', '-R', 'mkdir /T', p])
+    run([DEBUGFS, '-w', '-R', 'write /dev/null /n005', p])         # a root-level namesake of a name in /T (ROOTMODEL)
     nm = names(seq, N)
-    model = {}; bad = []; steps = 0; thresholds = []
+    model = dict(ROOTMODEL); bad = []; steps = 0; thresholds = []
     prev_shape = dirblocks(open(p, 'rb').read())
     reindex_at = (40, 200) if cfg != 'linear' else ()
     for i, n in enumerate(nm):
@@ -123,7 +135,9 @@ def sweep_job(j):
             if rc != 0: bad.append('%s/%s: e2fsck -fn exits %s after removing everything in %s order' % (cfg, seq, rc, oname)); break
     return (cfg, seq, bad, steps, thresholds if not bad else [])
 
-OPNAMES = ['a', 'b', 'Z' * 255, 'n005', 'q' * 120, 'sub']
+# '/T/abs' is spelled as an absolute path: the entry must be called 'abs' and live in /T; '/n005' and '/r' name root-level objects while the
+# current directory is /T ('/n005' exists from the start and has a namesake in /T for the short name sequence)
+OPNAMES = ['a', 'b', 'Z' * 255, 'n005', 'q' * 120, 'sub', '/T/abs', '/n005', '/r']
 def bfs_ops():
     ops = []
     for n in OPNAMES:
@@ -133,8 +147,13 @@ def bfs_ops():
 def apply_model(model, tn, op, n, first_existing):
     """returns (new model, new tn, debugfs commands)"""
     m = dict(model)
+    if n.startswith('/T/'):
+        # same operation through an absolute path: the model sees the base name, debugfs gets the path
+        m2, tn2, cmds = apply_model(model, tn, op, n[3:], first_existing)
+        return m2, tn2, [c.replace(' ' + n[3:], ' ' + n) for c in cmds]
+    inT = 0 if n.startswith('/') else 1
     if op == 'mkdir':
-        if n not in m: m[n] = (S_DIR, 2); tn += 1
+        if n not in m: m[n] = (S_DIR, 2); tn += inT
         return m, tn, ['mkdir %s' % n]
     if op == 'create':
         if n not in m: m[n] = (S_REG, 1)
@@ -154,7 +173,7 @@ def apply_model(model, tn, op, n, first_existing):
             del m[n]
         return m, tn, ['rm %s' % n]
     if op == 'rmdir':
-        if n in m and m[n][0] == S_DIR: del m[n]; tn -= 1
+        if n in m and m[n][0] == S_DIR: del m[n]; tn -= inT
         return m, tn, ['rmdir %s' % n]
     if op == 'link':
         # hard link n -> n.l : debugfs ln does not touch the link count (documented), so the count is set alongside
@@ -222,7 +241,7 @@ def main(tier, only=None):
     bj = []
     for cfg, seq, i, img in thr:
         if quick and (seq == 'mixed' or len([x for x in bj if x[0] == cfg]) >= 6): continue
-        model = {n: (S_FIFO, 1) for n in names(seq, i)}
+        model = {n: (S_FIFO, 1) for n in names(seq, i)}; model.update(ROOTMODEL)
         bj.append((cfg, '%s@%d' % (seq, i), img, model, 2, 1 if quick else 2))
     if quick: bj = bj[:40]
     else:
@@ -244,7 +263,7 @@ def main(tier, only=None):
     ck.add(evaluations=steps + trans, distinct_nontrivial=steps + states, states=steps + states, transitions=steps + trans, traces_validated_against_impl=steps + trans,
            rule='(1) for each configuration (linear, indexed with odd index limits, indexed+csum, inline_data directories, no filetype, 4k, large_dir) and name sequence (4-byte, 250-byte, mixed lengths) names are inserted one at a time through debugfs up to 300-700 names '
                 'with e2fsck -fyD re-indexing at 40 and 200 names, then removed in 2-4 orders; after the steps the independent listing must equal the model, every name must have the right type and link count, the checker must be clean; '
-                '(2) from every state just before a structural event (new block, index created, index level added) a BFS of depth 1-2 over 42 operations (mkdir, create, symlink, mknod, hard link, rm, rmdir on 6 names incl. a 255-byte one and an existing one) with the same oracle',
+                '(2) from every state just before a structural event (new block, index created, index level added) a BFS of depth 1-2 over 63 operations (mkdir, create, symlink, mknod, hard link, rm, rmdir on 9 names incl. a 255-byte one, an existing one, one spelled as an absolute path into the test directory and two root-level names addressed as /name while the current directory is the test directory; the root directory listing and link count are part of the model) with the same oracle',
            samples=['sweep indexed/long insert #251', 'bfs indexed_csum/short@113 + mkdir a ; rm n005'])
     ck.assumptions += ['debugfs ln/unlink do not maintain link counts by design; hard links are made with ln + sif links_count', 'hash-colliding names are not constructed']
     return ck.finish()
